@@ -6,6 +6,13 @@ HERE = os.path.dirname(os.path.dirname(os.path.abspath(__file__)))
 
 CHECKS = {
  # id: (design section, claim text, level note, technique)
+ "C15": ("5 C15",
+  "Contract on txtar.Write over a ghost file-system model: every file that exists afterwards and did not before lies at or below dir (lexically), "
+  "files that existed are neither removed nor changed (the open uses O_CREATE|O_EXCL, checked as a call-site obligation), a nil error implies that no entry name was absolute or climbed out through '..', "
+  "and that each target path holds exactly its entry's data; loop invariants over the processed prefix of a.Files, for every archive and directory.",
+  "assumed: the ghost fs contracts of os.OpenFile/(*os.File).Write/Close/os.MkdirAll and the Unix path algebra of filepath.Clean/Join (axiom joinBelow) in /verif/specs/fs.spec; lexical containment only (symlinks below dir are not modelled); "
+  "the txtar-c / txtar-x command-line round trip is not under contract (main functions around filepath.Walk, flag and log.Fatal) and is not decided by this check",
+  "contract-based deductive verification: VCs over go/ssa with ghost file-system state and call-site obligations, discharged by z3/cvc5; violations replayed by a directed probe of the real Write"),
  "C14": ("5 C14",
   "Contract on txtar.NeedsQuote: the result is true exactly when a file marker line starts at some line start of the body (for every byte string, with or without final newline); "
   "discharged through findFileMarker's contract (loop invariant: no marker before the scan position).",
